@@ -16,9 +16,9 @@ CONSTANTS Changes,     \* the change value maps a client may append
           MaxNoop      \* reconciles that have no effect in the specification (a guard makes them wait): legal steps of the real
                        \* system all the same, and the ones a weakened guard turns into effects
 
-VARIABLES w, hist, sched, bud
-mcvars == <<w, hist, sched, bud>>
-View == <<w, hist, bud>>
+VARIABLES w, hist, sched, bud, snap
+mcvars == <<w, hist, sched, bud, snap>>
+View == <<w, hist, bud, snap>>
 
 Setup == << [k |-> "connect"], [k |-> "rmast"], [k |-> "rcfg"], [k |-> "rcfg"] >>
 RECURSIVE ApplyAll(_, _)
@@ -26,6 +26,7 @@ ApplyAll(W, sts) == IF sts = << >> THEN W ELSE ApplyAll(Step(W, Head(sts), "c1")
 
 MCInit == /\ w = ApplyAll(InitW, Setup)
           /\ hist = << >>
+          /\ snap = EmptyFn
           /\ sched = Setup
           /\ bud = [noop |-> MaxNoop, rb |-> MaxRb, cut |-> MaxCut, mid |-> MaxMid, conn |-> MaxConn, stop |-> MaxDevStop, fail |-> MaxFail]
 
@@ -35,6 +36,7 @@ Do(st, pick, b2) ==
         /\ Len(sched) < MaxSteps
         /\ w' = W2
         /\ hist' = hist \o Events(w.txs, W2.txs)
+        /\ snap' = NextSnap(snap, w.cfg, W2.cfg)
         /\ sched' = Append(sched, st)
         /\ bud' = b2
 
@@ -51,7 +53,7 @@ DoNoop(st) ==
              \/ (w.cfg.cindex = j /\ w.txs[j].cc \in {Pending, InProgress})
     /\ sched' = Append(sched, st)
     /\ bud' = [bud EXCEPT !.noop = @ - 1]
-    /\ UNCHANGED <<w, hist>>
+    /\ UNCHANGED <<w, hist, snap>>
 
 Picks == IF w.conns = {} THEN {"c1"} ELSE w.conns
 
@@ -93,6 +95,8 @@ Inv_ConsistencyApplied == C20_ConsistencyApplied(w, hist)
 Inv_ConsistencyDevice == C20_ConsistencyDevice(w, hist)
 Inv_Terminates == C20_Terminates(w, hist, Stable)
 Inv_SyncCompletes == C20_SyncCompletes(w, hist, Stable)
+Inv_RollbackRestores == C20_RollbackRestores(w, hist, snap)
+Inv_AppliedIsCommitted == C20_AppliedIsCommitted(w, hist, Stable)
 
 -----------------------------------------------------------------------------
 ExportDir == IF "EXPORT_DIR" \in DOMAIN IOEnv THEN IOEnv.EXPORT_DIR ELSE "."
